@@ -48,6 +48,9 @@ ANCHORS = [
     ("src/easynetwork/lowlevel/api_async/backend/_asyncio/stream/socket.py", "StreamReaderBufferedProtocol.receive_data"),
     ("src/easynetwork/lowlevel/api_async/backend/_asyncio/stream/socket.py", "StreamReaderBufferedProtocol.receive_data_into"),
     ("src/easynetwork/lowlevel/api_async/backend/_asyncio/stream/socket.py", "StreamReaderBufferedProtocol._wait_for_data"),
+    ("src/easynetwork/lowlevel/api_async/backend/_asyncio/stream/socket.py", "StreamReaderBufferedProtocol._maybe_pause_transport"),
+    ("src/easynetwork/lowlevel/api_async/backend/_asyncio/stream/socket.py", "StreamReaderBufferedProtocol._maybe_resume_transport"),
+    ("src/easynetwork/lowlevel/api_async/backend/_asyncio/stream/socket.py", "StreamReaderBufferedProtocol._compute_read_buffer_limits"),
     ("src/easynetwork/lowlevel/api_async/backend/_asyncio/stream/socket.py", "AsyncioTransportStreamSocketAdapter.recv"),
     ("src/easynetwork/lowlevel/api_async/backend/_asyncio/stream/socket.py", "AsyncioTransportStreamSocketAdapter.recv_into"),
     ("src/easynetwork/clients/_iter.py", "ClientRecvIterator.__next__"),
@@ -269,6 +272,8 @@ def classify(exc):
         return [3]
     if isinstance(exc, RuntimeError):
         return [6]
+    if isinstance(exc, AssertionError):
+        return [8]
     if isinstance(exc, ConnectionResetError):
         return [4, 0]
     if isinstance(exc, OSError):
@@ -430,6 +435,7 @@ def run_async(inp):
 
 # ---------------------------------------------------------------- two threads on one blocking TCP client
 
+BIG_TIMEOUT = 100000.0
 WATCHDOG = 180.0   # only ever reached on a genuine deadlock: every wait is on an explicit condition
 
 
@@ -467,44 +473,51 @@ class Monitor:
 
 
 class InstrumentedLock:
-    """threading.Lock with the scheduler told when a thread starts waiting for it, and a deterministic hand-off: the
-    thread that gets the lock after waiting proceeds only once the releasing thread is quiescent again."""
+    """A mutex with threading.Lock's interface, implemented on the scheduler's monitor: the scheduler knows when a thread
+    starts waiting for it; a release hands the lock to the (lowest-numbered) waiting thread, which proceeds only once the
+    releasing thread is quiescent again, so the order of returns is deterministic.  A lock that is never released (a
+    defect of the code under test) leaves its waiters visibly 'blocked' instead of hanging the harness."""
 
     def __init__(self, mon):
         self.mon = mon
-        self.inner = threading.Lock()
+        self.owner = None          # tid, or "main" for the scheduler thread
         self.releaser = None
+
+    def _me(self):
+        return getattr(self.mon.tls, "tid", "main")
 
     def acquire(self, blocking=True, timeout=-1):
         mon = self.mon
-        if self.inner.acquire(False):
-            return True
-        if not blocking:
-            return False
-        tid = mon.tid()
+        me = self._me()
         with mon.cv:
-            mon.set(tid, "blocked")
-        if not self.inner.acquire(True, WATCHDOG if timeout is None or timeout < 0 else min(timeout, WATCHDOG)):
-            if timeout is None or timeout < 0:
-                raise HarnessTimeout("watchdog: receive lock never released")
-            with mon.cv:
-                mon.set(tid, "running")
-            return False
-        with mon.cv:
+            if self.owner is None:
+                self.owner = me
+                return True
+            if not blocking or me == "main":
+                return False
+            mon.set(me, "blocked")
+            mon.wait_for(lambda: self.owner == me, "receive lock never handed over")
             rel = self.releaser
-            if rel is not None and rel != tid:
+            if rel is not None and rel != me and rel != "main":
                 mon.wait_for(lambda: mon.state[rel] != "running", "hand-off of the receive lock")
-        return True
+            return True
 
     def release(self):
         mon = self.mon
         with mon.cv:
-            self.releaser = mon.tid()
-            for t in (0, 1):
-                if mon.state[t] == "blocked":
-                    mon.state[t] = "running"      # it will get the lock now
+            self.releaser = self._me()
+            waiters = [t for t in (0, 1) if mon.state[t] == "blocked"]
+            if waiters:
+                self.owner = waiters[0]
+                mon.state[waiters[0]] = "running"      # it has the lock now
+            else:
+                self.owner = None
             mon.cv.notify_all()
-        self.inner.release()
+
+    def force_release(self):
+        """teardown only: the code under test leaked the lock"""
+        self.owner = "main"
+        self.release()
 
     def __enter__(self):
         self.acquire()
@@ -514,7 +527,7 @@ class InstrumentedLock:
         self.release()
 
     def locked(self):
-        return self.inner.locked()
+        return self.owner is not None
 
 
 class GatedScriptTransport(ScriptTransport):
@@ -539,7 +552,8 @@ def run_threads(inp):
     from easynetwork.lowlevel import _lock
     from easynetwork.lowlevel.api_sync.endpoints.stream import StreamEndpoint
 
-    _tag, case, sched, na, nb = inp
+    _tag, case, sched, na, nb = inp[:5]
+    timed = inp[5] if len(inp) > 5 else [[], []]      # per thread: indexes of the calls made with a finite timeout
     kind, cfg, _dec, oracle, _calls, _mode, bufsize, _api, impl = case[:9]
     mon = Monitor()
     clock = Clock()
@@ -552,6 +566,7 @@ def run_threads(inp):
     object.__setattr__(client, "_TCPNetworkClient__receive_lock", _lock.ForkSafeLock(lambda: rlock))
     object.__setattr__(client, "_TCPNetworkClient__socket_proxy", None)
     left = {0: na, 1: nb}
+    started = {0: 0, 1: 0}
     errors = []
 
     def worker(tid):
@@ -565,7 +580,10 @@ def run_threads(inp):
                 return
             try:
                 try:
-                    res = [0, sc.canon_packet(client.recv_packet(timeout=None))]
+                    # a finite timeout far beyond anything that happens here: lock_with_timeout's timed branches
+                    # (non-blocking attempt, then acquire(True, timeout), recompute) with the behaviour of timeout=None
+                    tmo = BIG_TIMEOUT if cmd == "timed" else None
+                    res = [0, sc.canon_packet(client.recv_packet(timeout=tmo))]
                 except HarnessTimeout:
                     raise
                 except Exception as exc:
@@ -593,7 +611,8 @@ def run_threads(inp):
             if st == "idle" and left[tid] > 0:
                 left[tid] -= 1
                 mon.state[tid] = "running"
-                mon.cmd[tid] = "call"
+                mon.cmd[tid] = "timed" if started[tid] in timed[tid] else "call"
+                started[tid] += 1
                 mon.cv.notify_all()
             elif st == "parked":
                 mon.state[tid] = "running"
@@ -631,6 +650,13 @@ def run_threads(inp):
             for _ in range(10000):
                 with mon.cv:
                     parked = [t for t in (0, 1) if mon.state[t] == "parked"]
+                    stuck = not parked and "blocked" in mon.state.values()
+                if stuck:
+                    # nobody will ever release the receive lock (a defect of the code under test): break it open
+                    rlock.force_release()
+                    with mon.cv:
+                        quiesce()
+                    continue
                 if not parked:
                     break
                 tr.script.clear()       # anything still parked reads end-of-stream
@@ -750,6 +776,19 @@ class KernelTransport:
         self.schedule_read()
 
 
+_SIZED = {}
+
+
+def _sized_protocol(base, max_size):
+    """the real protocol, optionally with a smaller buffer (max_size bytes): its high/low-water marks scale with it
+    (3/4 and 3/16 of the size), so the pause_reading()/resume_reading() bookkeeping is reached with small streams"""
+    if not max_size:
+        return base
+    if max_size not in _SIZED:
+        _SIZED[max_size] = type("SizedProtocol", (base,), {"__slots__": (), "max_size": max_size})
+    return _SIZED[max_size]
+
+
 async def _run_e2e(inp):
     import asyncio
     from easynetwork.clients.async_tcp import AsyncTCPNetworkClient
@@ -759,10 +798,11 @@ async def _run_e2e(inp):
     from easynetwork.lowlevel.api_async.endpoints.stream import AsyncStreamEndpoint
 
     _tag, case, turns = inp[:3]
+    max_size = inp[3] if len(inp) > 3 else 0
     kind, cfg, _dec, _oracle, _calls, _mode, bufsize, api, impl = case[:9]
     loop = asyncio.get_running_loop()
     ktr = KernelTransport(loop)
-    proto = StreamReaderBufferedProtocol(loop=loop)
+    proto = _sized_protocol(StreamReaderBufferedProtocol, max_size)(loop=loop)
     ktr.set_protocol(proto)
     proto.connection_made(ktr)
     if api == 1:
@@ -1023,10 +1063,12 @@ def _threaded_cases(tier, rng, escalate):
             nsteps = sum(len(ch) + 1 for ch in chunks) + na + nb + 3
             tail = [i % 2 for i in range(2 * nsteps)]
             case = mk(fr, buffered, oracle, [], 0, bufsize, 1)
-            yield dict(input=[200, case, head + tail, na, nb],
+            timed = [[i for i in range(n_) if rng.random() < 0.4] for n_ in (na, nb)]
+            yield dict(input=[200, case, head + tail, na, nb, timed],
                        tags=["two-threads", fr["name"], "buffered" if buffered else "copying",
                              "second-call-while-first-parked" if len(head) >= 2 and head[0] != head[1] else "uncontended-start",
                              "lock-timeout-calls" if any(x >= 2 for x in head) else "no-lock-timeout-calls",
+                             "finite-timeout-calls" if any(timed) else "all-blocking-calls",
                              "one-segment" if len(chunks) == 1 else "several-segments"],
                        nontrivial=bool(len(head) >= 2 and head[0] != head[1]))
 
@@ -1060,6 +1102,9 @@ def _e2e_cases(tier, rng, escalate):
                 turns.append(turn)
                 if rng.random() < 0.5:
                     turns.append([rng.choice([R, R, C])])
+            if rng.random() < 0.35 and turns and turns[-1] and turns[-1][-1][0] == 2:
+                turns[-1].append(F)             # the last bytes and the FIN are seen in the same loop iteration
+                flavours.add("SF")
             turns.append(rng.choice([[F], [F, C], [C, F], [R, F], [F, R]]))
             buffered = rng.random() < 0.5
             bufsize = rng.choice([1, 2, 3, 4, 64])
@@ -1072,13 +1117,62 @@ def _e2e_cases(tier, rng, escalate):
                 tags.append("cancel-then-read-event-same-iteration")
             if flavours & {"SC", "SCR"}:
                 tags.append("read-event-then-cancel-same-iteration")
+            if "SF" in flavours:
+                tags.append("data-and-eof-same-iteration")
             yield dict(input=[300, case, turns], tags=tags, nontrivial=bool(flavours - {"S"}))
+
+
+BIG_LF = dict(name="lf-big", kinds=(0, 1), cfg=[b"\n", 200000, 0], impl=[b"autosep-ascii"], dec=1)
+
+
+def _flow_cases(tier, rng, escalate):
+    """read flow control of the real protocol: the peer sends a backlog above the high-water mark while no receive is
+    pending (pause_reading), then receives with max_recv_size below / between / above the water marks, more data, the close.
+    Scaled protocol (buffer 2048: marks 1024 / 256) for volume, a few cases with the real 256 KiB buffer (192 / 48 KiB)."""
+    thorough = tier == "thorough" or escalate
+    plans = [(2048, 60 if not thorough else 400), (0, 1 if not thorough else 6)]
+    R, C, F = [0], [1], [3]
+    for max_size, count in plans:
+        size = max_size or 262144
+        high, low = size * 3 // 4, size * 3 // 16
+        for _ in range(count):
+            frames = []
+            total = 0
+            target = rng.choice([high + 10, high + high // 4, size + size // 3, 2 * size] if max_size else [high + 10, high + high // 8])
+            while total < target:
+                n = rng.randint(max(1, low // 3), max(2, high // 2))
+                f = bytes(rng.choice(b"abcdefgh") for _ in range(n)) + b"\n"
+                frames.append(f)
+                total += len(f)
+            stream = b"".join(frames)
+            cuts = sorted({rng.randint(1, len(stream) - 1) for _ in range(rng.randint(0, 3))})
+            chunks = sc.cuts_to_chunks(stream, cuts)
+            turns = []
+            for i, ch in enumerate(chunks):
+                turns.append([[2, ch]])
+                if rng.random() < 0.6:
+                    turns.append([R])
+                if rng.random() < 0.2:
+                    turns.append([C])
+            turns.append(rng.choice([[F], [R, F], [F, R]]))
+            buffered = rng.random() < 0.5
+            bufsize = rng.choice([low // 2, low + 1, high, size, 2 * size])
+            api = rng.choice([0, 1])
+            oracle = [[0, ch, 0] for ch in chunks] + [[1]]
+            case = mk(BIG_LF, buffered, oracle, [], 1, bufsize, api)
+            yield dict(input=[300, case, turns, max_size],
+                       tags=["real-asyncio-transport", "flow-control", "buffered" if buffered else "copying",
+                             "real-size-buffer" if not max_size else "scaled-buffer",
+                             "max_recv_size>=high-water" if bufsize >= high else
+                             ("max_recv_size>low-water" if bufsize > low else "max_recv_size<low-water")],
+                       nontrivial=True)
 
 
 def cases(tier, rng, escalate):
     yield from _single_cases(tier, rng, escalate)
     yield from _threaded_cases(tier, rng, escalate)
     yield from _e2e_cases(tier, rng, escalate)
+    yield from _flow_cases(tier, rng, escalate)
 
 
 # ---------------------------------------------------------------- the property, stated on the implementation
@@ -1094,12 +1188,15 @@ def _stream_of(oracle):
 
 
 def _oracle_threads(inp):
-    _tag, case, sched, na, nb = inp
+    _tag, case, sched, na, nb = inp[:5]
     kind, cfg, _dec, orc, _calls, _mode, bufsize, _api, impl = case[:9]
     stream = _stream_of(orc)
     expected, _left = sc.spec_events_py(kind, cfg, impl, stream)
     exp = [[0, e[1]] if e[0] == 0 else [1, 1] for e in expected]
-    _obs, log, _taken, _items, tries = run_impl(inp)
+    obs, log, _taken, _items, tries = run_impl(inp)
+    if len(log) < na + nb or (obs and any(st[0] != 0 for st in obs[-1])):
+        return (f"two threads: only {len(log)} of {na + nb} recv_packet calls returned, final statuses {obs[-1] if obs else None} "
+                f"(1 = waiting for the receive lock): a call is stuck although the transport reached end-of-stream")
     if any(t not in (0, 1) for t in tries):
         return "two threads: recv_packet(timeout=0) with the receive lock held did not raise TimeoutError"
     results = [r for _tid, r in log]
@@ -1124,6 +1221,15 @@ def _oracle_threads(inp):
 
 def _oracle_e2e(inp):
     _tag, case, turns = inp[:3]
+    if inp[3:] and any(len(a) > 1 and len(a[1]) > 64 for t in turns for a in t if a[0] == 2):
+        kind, cfg, _dec, orc = case[:4]
+        stream = _stream_of(orc)
+        exp = [[0, f] for f in stream.split(cfg[0])[:-1]] + [[2]]
+        got = run_impl(inp)
+        if got != exp:
+            return (f"real asyncio transport (flow control): the calls delivered {len(got) - 1} results ending with "
+                    f"{got[-1:] } instead of the {len(exp) - 1} packets sent then end-of-stream")
+        return None
     kind, cfg, _dec, orc, _calls, _mode, bufsize, api, impl = case[:9]
     stream = _stream_of(orc)
     expected, _left = sc.spec_events_py(kind, cfg, impl, stream)
@@ -1191,24 +1297,26 @@ def signature(inp, failure):
 def shrink(inp):
     if inp[0] == 300:
         _tag, case, turns = inp[:3]
+        rest = list(inp[3:])
         for i in range(len(turns)):
             if not any(a[0] == 2 for a in turns[i]):
-                yield [300, case, turns[:i] + turns[i + 1:]]
+                yield [300, case, turns[:i] + turns[i + 1:]] + rest
         for i in range(len(turns)):
             for j in range(len(turns[i])):
                 if turns[i][j][0] != 2 and len(turns[i]) > 1:
-                    yield [300, case, turns[:i] + [turns[i][:j] + turns[i][j + 1:]] + turns[i + 1:]]
+                    yield [300, case, turns[:i] + [turns[i][:j] + turns[i][j + 1:]] + turns[i + 1:]] + rest
         return
     if inp[0] == 200:
-        _tag, case, sched, na, nb = inp
-        for i in range(len(sched)):
-            yield [200, case, sched[:i] + sched[i + 1:], na, nb]
+        _tag, case, sched, na, nb = inp[:5]
+        rest = list(inp[5:])
         if any(x >= 2 for x in sched):
-            yield [200, case, [x for x in sched if x < 2], na, nb]
-        if na > 1:
-            yield [200, case, sched, na - 1, nb]
-        if nb > 1:
-            yield [200, case, sched, na, nb - 1]
+            yield [200, case, [x for x in sched if x < 2], na, nb] + rest
+        if rest and any(rest[0]):
+            for t in (0, 1):
+                for i in rest[0][t]:
+                    r2 = [list(rest[0][0]), list(rest[0][1])]
+                    r2[t].remove(i)
+                    yield [200, case, sched, na, nb, r2]
         return
     kind, cfg, dec, orc, calls, mode, bufsize, api, impl = inp[:9]
     for i in range(len(calls)):
